@@ -34,6 +34,17 @@ Theorem C02_residue_matches_exact : forall g l mu,
 Proof. exact residue_matches_exact. Qed.
 Print Assumptions C02_residue_matches_exact.
 
+(* edge labels: a match maps every edge of the link's residue pattern onto a residue-graph edge carrying
+   the same label (none = none); an unlabelled link never matches a labelled edge and vice versa *)
+Theorem C02_edge_labels : forall g l mu,
+  (induced_ok g l mu = true <->
+   forall o1 n1 o2 n2, In (o1, n1) mu -> In (o2, n2) mu -> order_eqb o1 o2 = false ->
+     has_ledge l o1 o2 = has_medge g n1 n2 /\ (has_ledge l o1 o2 = true -> llabel l o1 o2 = mlabel g n1 n2)) /\
+  (forall o1 n1 o2 n2, In mu (residue_matches g l) -> In (o1, n1) mu -> In (o2, n2) mu -> order_eqb o1 o2 = false ->
+     has_ledge l o1 o2 = true -> has_medge g n1 n2 = true /\ mlabel g n1 n2 = llabel l o1 o2).
+Proof. exact (fun g l mu => conj (induced_ok_spec g l mu) (fun o1 n1 o2 n2 => match_respects_edge_labels g l mu o1 n1 o2 n2)). Qed.
+Print Assumptions C02_edge_labels.
+
 (* every link atom identifies exactly one atom of its residue *)
 Theorem C02_link_atoms_unique : forall g mu las m,
   match_atoms g mu las = Some m ->
@@ -59,11 +70,11 @@ Example C02_nonvacuous :
   let at1 k := {| ra_key := k; ra_name := "EC"; ra_resname := "PEO" |} in
   let g := {| m_nodes := [{| mn_key := 0; mn_resid := 1; mn_atoms := [at1 0] |}; {| mn_key := 1; mn_resid := 2; mn_atoms := [at1 1] |};
                           {| mn_key := 2; mn_resid := 3; mn_atoms := [at1 2] |}];
-              m_edges := [(0, 1); (1, 2)] |} in
+              m_edges := [(0, 1); (1, 2)]; m_labels := [] |} in
   let la k o := {| la_key := k; la_name := "EC"; la_order := o; la_resnames := ["PEO"]; la_replace := [] |} in
   let l := {| l_atoms := [la "EC" (ONum 0); la "+EC" (ONum 1)];
               l_inters := [{| li_sec := "bonds"; li_atoms := ["EC"; "+EC"]; li_params := ["1"; "0.33"; "7000"]; li_version := 1; li_meta := [] |}];
-              l_edges := [("EC", "+EC")]; l_res_nodes := [ONum 0; ONum 1]; l_res_edges := [(ONum 0, ONum 1)] |} in
+              l_edges := [("EC", "+EC")]; l_res_nodes := [ONum 0; ONum 1]; l_res_edges := [(ONum 0, ONum 1)]; l_res_labels := [] |} in
   map (fun kv => snd (fst (fst kv))) (apply_links g [] [l]) = [[1; 2]; [0; 1]] \/
   map (fun kv => snd (fst (fst kv))) (apply_links g [] [l]) = [[0; 1]; [1; 2]].
 Proof. exact ex_links. Qed.
